@@ -127,10 +127,11 @@ Definition parse_esc_seq (bs : list N) : option (key * list N) :=
   end.
 
 (** ** [parse_byte_alias]: after a '<'. *)
-Fixpoint split_gt (bs : list N) (acc : list N) : list N * list N :=
+(** the bytes up to the closing '>' and what follows it; [None]: no '>' *)
+Fixpoint split_gt (bs : list N) (acc : list N) : option (list N * list N) :=
   match bs with
-  | [] => (acc, [])
-  | b :: r => if b =? 62 then (acc, r) else split_gt r (acc ++ [b])
+  | [] => None
+  | b :: r => if b =? 62 then Some (acc, r) else split_gt r (acc ++ [b])
   end.
 
 Fixpoint strip_mods (fuel : nat) (buf : list N) (mods : N) : list N * N :=
@@ -184,10 +185,10 @@ Definition alias_key (buf : list N) (mods : N) : option key :=
        end.
 
 Definition parse_byte_alias (bs : list N) : option (key * list N) :=
-  let '(buf, rest) := split_gt bs [] in
-  match buf with
-  | [] => None
-  | _ =>
+  match split_gt bs [] with
+  | None => None
+  | Some ([], _) => None
+  | Some (buf, rest) =>
     let '(buf', mods) := strip_mods (length buf) buf M_NONE in
     match alias_key buf' mods with
     | Some k => Some (k, rest)
